@@ -1528,6 +1528,9 @@ impl GrafeoDB {
                 .tx_manager
                 .last_assigned_tx_id()
                 .unwrap_or_else(|| self.tx_manager.begin());
+            // Everything logged so far came from auto-committed API calls: mark it committed
+            // first, otherwise recovery discards it when it meets the checkpoint record.
+            wal.log(&WalRecord::TxCommit { tx_id })?;
             wal.checkpoint(tx_id, epoch)?;
             wal.sync()?;
         }
